@@ -161,6 +161,24 @@ META4 = {
 
 
 META5 = {
+ ("C01","G"): dict(needs="sync function with an Option<Option<T>> parameter; calls with None and Some(None)", demo_dest="tests/", detected_by=["C01 (oracle pure on the nested-option functions, sig 11)", "C02"]),
+ ("C01","H"): dict(needs="async function with a by-value f64 parameter; calls with 0.0 and -0.0", demo_dest="cachelito-async/tests/", detected_by=["C01 (oracle pure on the two-zeros functions, sig 12)"]),
+ ("C02","G"): dict(needs="sync function with a string-bearing argument; two values differing only by a blank after a comma", demo_dest="tests/", detected_by=["C02 (keys part: collision of two different argument lists)"]),
+ ("C02","H"): dict(needs="sync method with a receiver and exactly one further argument, called on two receivers", demo_dest="tests/", detected_by=["C02 (oracle pure on the method functions)", "C01"]),
+ ("C07","G"): dict(needs="sync global lru; a hit that overlaps a store of another thread (which holds the queue lock), then an overflow", demo_dest="tests/", detected_by=["C07 (schedules lr-: a key looked up during a concurrent store is evicted before older ones)"]),
+ ("C07","H"): dict(needs="scope = thread with ttl and limit, fifo or lru; an expired key looked up and stored again, then an overflow", demo_dest="tests/", detected_by=["C07 (c07 predicate / queue correspondence)"]),
+ ("C08","G"): dict(needs="sync global lfu/arc/tlru with max_memory; a store over an existing key that has hits (stale refresh) with a larger value", demo_dest="tests/", detected_by=["C08 (c08 predicate + freq correspondence)"]),
+ ("C08","H"): dict(needs="async arc/tlru; invalidate_with removing an entry in front of the survivors, then an overflow with close scores", demo_dest="cachelito-async/tests/", detected_by=["C08 (oracle score / queue correspondence)"]),
+ ("C09","G"): dict(needs="scope = thread, max_memory, Result; an Ok value whose size is exactly max_memory", demo_dest="tests/", detected_by=["C09 (exact-fit scenario: an Ok that fits is not stored)"]),
+ ("C09","H"): dict(needs="sync global Result with invalidate_on, no max_memory; stale entry, Ok refresh, same call again", demo_dest="tests/", detected_by=["C09 (oracle err on the Result + invalidate_on functions: the refreshing Ok is not stored)", "C11", "C19"]),
+ ("C10","G"): dict(needs="sync Result function with cache_if; an execution that returns Err", demo_dest="tests/", detected_by=["C10 (oracle cif: consultation log)"]),
+ ("C10","H"): dict(needs="async cache_if with max_memory; an accepted value whose size is exactly max_memory", demo_dest="cachelito-async/tests/", detected_by=["C10 (exact-fit scenario: accepted result not stored)", "C05"]),
+ ("C15","G"): dict(needs="sync global with ttl; two callers at an expiry instant: one purges and stores, the other finds the fresh entry under the write lock", demo_dest="tests/", detected_by=["C15 (schedules xr-: statistics at quiescence, hits + misses != lookups)"]),
+ ("C15","H"): dict(needs="async lru/arc/tlru; an eviction or invalidation between a hit's entry access and its queue update", demo_dest="cachelito-async/tests/", detected_by=["C15 (schedules: statistics at quiescence)"]),
+ ("C16","G"): dict(needs="scope = thread with max_memory and values smaller than 24 bytes; an overflow", demo_dest="tests/", detected_by=["C16 (core part: panic)"]),
+ ("C16","H"): dict(needs="async with limit = usize::MAX; a store over a key that is still cached", demo_dest="cachelito-async/tests/", detected_by=["C16 (core part, extremes profile: panic)"]),
+ ("C19","G"): dict(needs="sync function with a destructuring-pattern parameter; two calls differing only there", demo_dest="tests/", detected_by=["C19 (oracle pure on the pattern-parameter functions)", "C02"]),
+ ("C19","H"): dict(needs="sync global Result with invalidate_on, no max_memory; stale entry, Ok refresh, same call again", demo_dest="tests/", detected_by=["C19 (oracles err / inv on the Result + invalidate_on functions)", "C09"]),
 }
 
 def main():
